@@ -140,6 +140,7 @@ public:
     else if (k == "r.resolve") rResolve(o);
     else if (k == "r.query") rQuery(o);
     else if (k == "r.numcalc") rNumcalc(o);
+    else if (k == "r.text") rText(o);
     else if (k == "r.parseopts") rParseOpts(o);
     else if (k == "r.dist" || k == "r.dist.truncexp" || k == "r.dist.param") rDist(o);
     else if (k == "r.pfmt") rPfmt(o);
@@ -671,6 +672,54 @@ public:
     });
     ctx.evi("tokens", static_cast<long>(n));
     done(g);
+  }
+  // ---- character / fixed-width / block-removal / number-recognition helpers of TextTools applied to a stored line
+  void rText(const Op& o) {
+    Doc* d = pick(o.a, static_cast<int>(o.d % NKIND), o.b | CROSS); if (!d) { ctx.outcome("skip"); return; }
+    std::string line; if (!firstLine(*d, static_cast<size_t>(o.d), o.c, static_cast<uint64_t>(o.d), line)) { done(1); return; }
+    namespace TT = bpp::TextTools;
+    uint64_t acc = 11; int raised = 0;
+    static const char OPEN[] = {'(', '[', '{', '<'}, CLOSE[] = {')', ']', '}', '>'};
+    char bo = OPEN[o.b & 3], bc = CLOSE[o.b & 3];
+    static const std::vector<std::vector<std::string>> EXB = {{}, {"[&"}, {"x[", "[["}, {"N(", "(("}, {"=("}};
+    static const std::vector<std::vector<std::string>> EXE = {{}, {"&]"}, {"]x", "]]"}, {")N", "))"}, {")="}};
+    size_t ex = static_cast<size_t>(o.b >> 2) % EXB.size();
+    size_t width = static_cast<size_t>(o.b >> 5) % 48, chunk = 1 + static_cast<size_t>(o.b >> 11) % 9;
+    std::string pat = line.size() >= 2 && (o.b & (1 << 15)) ? line.substr(line.size() / 2, 2) : std::string("=");
+    raised += guard("TextTools::whitespace-and-case", [&] {
+      acc ^= strHash(TT::removeSurroundingWhiteSpaces(line)); acc ^= strHash(TT::removeWhiteSpaces(line)); acc ^= strHash(TT::removeFirstWhiteSpaces(line));
+      acc ^= strHash(TT::removeLastWhiteSpaces(line)); acc ^= strHash(TT::removeNewLines(line)); acc ^= strHash(TT::removeLastNewLines(line));
+      acc ^= strHash(TT::toUpper(line)); acc ^= strHash(TT::toLower(line)); acc += TT::isEmpty(line);
+    });
+    raised += guard("TextTools::removeSubstrings", [&] { acc ^= strHash(TT::removeSubstrings(line, bo, bc)); });
+    raised += guard("TextTools::removeSubstrings(exceptions)", [&] { std::vector<std::string> eb = EXB[ex], ee = EXE[ex]; acc ^= strHash(TT::removeSubstrings(line, bo, bc, eb, ee)); });
+    raised += guard("TextTools::resize", [&] {
+      std::string r1 = TT::resizeRight(line, width, '.'), r2 = TT::resizeLeft(line, width, '.');
+      if (r1.size() != width || r2.size() != width) ctx.fail("invariant:fixed-width", "invariant:fixed-width:TextTools::resize", "resizeRight/Left(" + std::to_string(width) + ") returned " + std::to_string(r1.size()) + " / " + std::to_string(r2.size()) + " characters");
+      acc ^= strHash(r1) ^ strHash(r2);
+    });
+    raised += guard("TextTools::split", [&] {
+      std::vector<std::string> v = TT::split(line, chunk); std::string j; for (auto& x : v) j += x;
+      if (j != line) ctx.fail("invariant:split-rejoin", "invariant:split-rejoin:TextTools::split", "chunks of " + std::to_string(chunk) + " characters do not re-join to the input");
+      acc += v.size();
+    });
+    raised += guard("TextTools::search", [&] {
+      acc += TT::count(line, pat); acc += TT::startsWith(line, pat); acc += TT::endsWith(line, pat); acc += TT::hasSubstring(line, pat);
+      std::string t = line; TT::replaceAll(t, pat, pat + pat); acc ^= strHash(t); acc ^= strHash(TT::removeChar(line, pat[0]));
+    });
+    // number recognition and conversion agree: what is recognised converts, what is not recognised is refused with the library exception
+    {
+      std::string tok = TT::removeSurroundingWhiteSpaces(line); size_t q = tok.find_last_of("=,;( \t"); if (q != std::string::npos) tok = tok.substr(q + 1);
+      bool isNum = false, isInt = false;
+      raised += guard("TextTools::isDecimalNumber", [&] { isNum = TT::isDecimalNumber(tok); isInt = TT::isDecimalInteger(tok); });
+      int gd = guard("TextTools::toDouble", [&] { acc ^= strHash(hexfloat(TT::toDouble(tok))); });
+      int gi = guard("TextTools::toInt", [&] { acc += static_cast<uint64_t>(TT::toInt(tok)); });
+      if (gd >= 0 && (gd == 0) != isNum) ctx.fail("invariant:number-recognition", "invariant:number-recognition:toDouble", "isDecimalNumber('" + printable(tok) + "') is " + (isNum ? "true" : "false") + " but toDouble " + (gd == 0 ? "returned" : "raised"));
+      if (gi >= 0 && (gi == 0) != isInt) ctx.fail("invariant:number-recognition", "invariant:number-recognition:toInt", "isDecimalInteger('" + printable(tok) + "') is " + (isInt ? "true" : "false") + " but toInt " + (gi == 0 ? "returned" : "raised"));
+      raised += gd + gi;
+    }
+    ctx.ev("t=" + std::to_string(acc)); ctx.evi("raised", raised);
+    ctx.outcome("read");
   }
   void rTok(const Op& o) {
     Doc* d = pick(o.a, static_cast<int>(o.d % NKIND), o.b | CROSS); if (!d) { ctx.outcome("skip"); return; }
